@@ -475,3 +475,38 @@ def norm(node):
         return ast.unparse(node)
     except Exception:
         return "<?>"
+
+
+def expand_text(fi, e, depth=3):
+    """norm(e) with every local name that has exactly one binding in fi (a plain `name = <expr>` assignment, not a loop
+    target, not a parameter) replaced by its defining expression, recursively up to `depth`.  Makes text-level comparisons
+    insensitive to hoisting a sub-expression into a local."""
+    import copy
+
+    binds = {}
+    loop_targets = set()
+    for n in walk_function(fi.node):
+        if isinstance(n, ast.Assign) and len(n.targets) == 1 and isinstance(n.targets[0], ast.Name):
+            binds.setdefault(n.targets[0].id, []).append(n.value)
+        elif isinstance(n, (ast.AugAssign, ast.AnnAssign)) and isinstance(n.target, ast.Name):
+            binds.setdefault(n.target.id, []).append(None)
+        elif isinstance(n, ast.For):
+            for x in ast.walk(n.target):
+                if isinstance(x, ast.Name):
+                    loop_targets.add(x.id)
+        elif isinstance(n, ast.comprehension):
+            for x in ast.walk(n.target):
+                if isinstance(x, ast.Name):
+                    loop_targets.add(x.id)
+    single = {k: v[0] for k, v in binds.items() if len(v) == 1 and v[0] is not None and k not in loop_targets and k not in fi.params}
+
+    class Sub(ast.NodeTransformer):
+        def __init__(self, d):
+            self.d = d
+
+        def visit_Name(self, node):
+            if isinstance(node.ctx, ast.Load) and node.id in single and self.d > 0:
+                return Sub(self.d - 1).visit(copy.deepcopy(single[node.id]))
+            return node
+
+    return norm(Sub(depth).visit(copy.deepcopy(e)))
